@@ -571,6 +571,35 @@ def rules(ctx: Ctx) -> None:
     rets = [r for r in ast.walk(pv.node) if isinstance(r, ast.Return)]
     ctx.ob("R15.5", "parse_value:applies-cast", bool(cast_calls) and all(r.value is not None for r in rets), pv.loc(),
            "the coercion function applies the declared type and returns the result")
+    # ... on every path: the value parameter as it came in is never what is returned (a shortcut for values that "need no parsing" hands
+    # back 1 for a flag, an int for a schema name)
+    from ..cfg import flow as _flow15
+
+    pcfg = _flow15(prog, pv).cfg
+    vparam = next((p_ for p_ in pv.params() if p_ not in ("self", "cls")), None)
+    for r in [r_ for r_ in prog.walk_fn(pv) if isinstance(r_, ast.Return) and r_.value is not None]:
+        # the returned value may be the parameter itself (directly or through locals), not merely computed from it
+        raw_names = [v for v in prog.value_sources(pv, r.value) if isinstance(v, ast.Name) and v.id == vparam]
+        unconverted = False
+        if raw_names:
+            rn = pcfg.node_for(r)
+            dnodes = {pcfg.node_for(dn) for _k, dn in prog.local_defs(pv, vparam)}
+            unconverted = rn is not None and None not in dnodes and pcfg.reach(pcfg.entry, rn, avoid=dnodes)
+        ctx.ob("R15.5", "parse_value:no-path-returns-the-value-as-it-came", not unconverted, loc(pv.mod, r),
+               f"`{u(r)[:50]}`: " + ("some path reaches this return without converting the value" if unconverted else "every path to this return has converted the value"))
+
+    # ---- R15.7 the analysis stays in the thread that asked for it: scoped overrides are looked up under the calling thread's id, so work handed
+    # to a pool or a new thread runs without them (and a forked process keeps a stale copy)
+    _WORKERS = {"ThreadPoolExecutor", "ProcessPoolExecutor", "Thread", "Timer", "Pool", "ThreadPool", "Process", "to_thread", "run_in_executor", "start_new_thread"}
+    n_workers = 0
+    for f in prog.funcs.values():
+        for n in prog.walk_fn(f):
+            nm = n.id if isinstance(n, ast.Name) else n.attr if isinstance(n, ast.Attribute) else None
+            if nm in _WORKERS and isinstance(getattr(n, "ctx", None), ast.Load):
+                n_workers += 1
+                ctx.ob("R15.7", f"no-worker-threads:{f.owner}:{nm}", False, loc(f.mod, n),
+                       f"`{u(n)}` moves work to another thread or process: the scoped configuration of the caller (default schema, flags) is not visible there")
+    ctx.ob("R15.7", "no-worker-threads:scanned", True, "sqllineage/", f"{n_workers} use(s) of thread / process pools found in the package", trivial=True)
 
 
 def _rooted_in_container(e: ast.AST, containers: dict[str, str]) -> bool:
